@@ -36,6 +36,7 @@ Steps:
    - patch.diff : the source change ONLY (git diff of the non-test change), applicable with `git apply` to a clean checkout
    - demo.diff : the demonstration test ONLY, as a git diff applicable to a clean checkout
    - notes.md : what the change is, why it breaks the property, what exactly is needed for it to manifest, and the exact commands you ran with their outcome.
+   - at the end of notes.md, under the heading `Seen on the way`, list any place where the UNCHANGED code already seems to break the property (say for each whether you ran it or only read it); do not change those places.
 Leave the worktree with both the change and the demo applied. Report back a 5-line summary.
 """
     open(out+"/prompt.txt","w").write(prompt)
